@@ -227,11 +227,11 @@ def main(argv=None):
     res, sk = R.run_sharded(worker, [mk(d, i) for i, d in enumerate(lab)], budget)
     rep.add_results("labelled", res, sk, exhaustive=False)
     import superrec2.model.reconciliation as m4, superrec2.utils.subsequences as m5, superrec2.utils.trees as m6
-    rep.functions = R.source_digest(
+    rep.functions = R.safe_digest(lambda: R.source_digest(
         m4.ReconciliationOutput.node_event, m4.ReconciliationOutput._cost_rec, m4.ReconciliationOutput.cost,
         m4.SuperReconciliationOutput.reconciliation_cost, m4.SuperReconciliationOutput._ordered_labeling_cost,
         m4.SuperReconciliationOutput._unordered_labeling_cost, m4.SuperReconciliationOutput.labeling_cost,
-        m4.SuperReconciliationOutput.cost, m5.subseq_segment_dist, m5.mask_from_subseq, m6.LowestCommonAncestor.distance)
+        m4.SuperReconciliationOutput.cost, m5.subseq_segment_dist, m5.mask_from_subseq, m6.LowestCommonAncestor.distance))
     rep.bounds = dict(bounds, costs="spe, dup, hgt, floss, sloss: all non-negative integers, no coherence restriction; second pass hgt = infinity.inf")
     rep.assumptions = ["oracles engine/oracles/recon.py and labels.py are the documented event model", "z3 linear integer arithmetic"]
     rep.stubs = H.STUBS
